@@ -281,3 +281,17 @@ def pmap(fn, items, workers=None):
     workers = workers or min(16, (os.cpu_count() or 4))
     with concurrent.futures.ThreadPoolExecutor(max_workers=workers) as ex:
         return list(ex.map(fn, items))
+
+
+def load_proposed(chk, path):
+    """known_findings.json is shared and not edited by the property modules; entries proposed by a module and not
+    merged yet are read from its own lib/<cnn>_known_findings.json, so the check already has its final behaviour."""
+    try:
+        data = json.load(open(path))
+    except OSError:
+        return
+    have = {f['id'] for f in chk.known_findings}
+    for f in data.get('findings', []):
+        if f.get('property') == chk.pid and f['id'] not in have:
+            chk.known_findings.append(f)
+            chk.notes.append(f'known finding {f["id"]} read from {os.path.relpath(path, os.path.dirname(os.path.dirname(path)))} (proposed, not yet in known_findings.json)')
